@@ -61,8 +61,13 @@ SITES = {"shift_pf_nonatomic": "pseudo-shift-unparenthesized", "if_noelse_then_i
          "curly_after_paren_ctl": "curly-shift-after-control", "shifted_shock": "shifted-shock-anticipated"}
 
 
+# a failure is attributed to one of those sites only when it also shows the signature that defect had
+SIGNATURE = {"equation-meaning": ["shift_pf_nonatomic"], "equation-evaluation-raises": ["shifted_shock"],
+             "source-rejected": ["curly_after_paren_ctl", "if_noelse_then_ifelse"]}
+
+
 def site_for(features, default):
-    for f in DEFECT_FEATURES:
+    for f in SIGNATURE.get(default, []):
         if f in features:
             return SITES[f]
     return default
@@ -639,8 +644,8 @@ def run(ctx: Ctx):
                 "and, for the prep stream, distinct (items, #for, #if, non-trivial output) shapes of directive sequences")
     run_corpus(ctx)
     run_tables(ctx)
-    run_prep_stream(ctx, ctx.n(2500, 40000))
-    run_model_stream(ctx, ctx.n(450, 6000))
+    run_prep_stream(ctx, ctx.n(2500, 60000))
+    run_model_stream(ctx, ctx.n(450, 14000))
 
 
 def search(ctx: Ctx, seeds):
